@@ -602,6 +602,11 @@ func (f *Frame) resolveModTarget(m Clause, hv HeapView) (key, ref string) {
 		if pt, ok := base.Ty.Underlying().(*types.Pointer); ok {
 			return rootKey(pt.Elem()), base.T
 		}
+	case "index", "slice":
+		base := ctx.evalS(n.Kids[0])
+		if st, ok := base.Ty.Underlying().(*types.Slice); ok {
+			return "e:" + canonKey(st.Elem()), sliceField("s.ref", base.T)
+		}
 	}
 	panic(evalErr{"modifies: unsupported target " + m.Text})
 }
